@@ -1,6 +1,7 @@
 import Chess.Lemmas.Reach
 import Chess.Lemmas.FenWrite
 import Chess.Lemmas.SpecSums
+import Chess.Lemmas.FnsEquiv.Letters
 
 /-!
 # C11 — exported FEN describes the position and re-imports to the same game
@@ -61,3 +62,12 @@ end Chess.Props.C11
 #print axioms Chess.Props.C11.reimport_of_sane_gives_the_same_position
 #print axioms Chess.Props.C11.reimport_succeeds_iff
 #print axioms Chess.Props.C11.reimport_gives_the_same_hash
+
+/-! ### Translation tie (C11.T)
+`tools/translate.py` regenerates `Chess/Gen/Fns.lean` from the Rust text of the leaf functions on every run (a
+parser, not patterns); the theorems below — proved in `Chess/Lemmas/FnsEquiv/*` and re-checked by the kernel whenever
+the generated term changes — say that the TRANSLATED code equals the hand-written model and the generated tables this
+file's theorems are about, for the letters the FEN writer uses (`as_char_ascii`). A rewrite of the Rust text that keeps the meaning leaves them true; one that
+changes it breaks the theorem named after the function. -/
+#print axioms Chess.FnsEquiv.Piece_as_char_ascii_eq
+#print axioms Chess.FnsEquiv.Piece_as_char_ascii_table
